@@ -196,6 +196,8 @@ def check(run):
         tree = G.gen_tree(run.rng, run.tier)
         rank0 = run.rng.choice([1, 1, run.rng.randint(0, 12), run.rng.randint(0, 12), 1000])
         obs = G.load_real(tree, rank0)
+        if G.via_link(tree):
+            run.count("layouts_loaded_through_a_symbolic_link_to_their_directory")
         run.evaluations += 1
         feats = G.features(tree)
         for f in feats:
